@@ -50,6 +50,9 @@ type Layout struct {
 	Permute bool `json:"permute,omitempty"`
 	// Unknown inserts fields with numbers the schema does not define.
 	Unknown bool `json:"unknown,omitempty"`
+	// FixedLast appends an unknown fixed64/fixed32 field at the END of every message (block, group,
+	// dense, dense info, way, relation, info): the shape protoscan's Message.Skip mis-reports.
+	FixedLast bool `json:"fixed_last,omitempty"`
 	// Seed drives both; the output is a function of the description only.
 	Seed int64 `json:"seed,omitempty"`
 }
